@@ -286,13 +286,19 @@ def _safe_execute(mod, case, stats):
             # the earlier cases are executed first, only the last one is judged
             for c in case["sequence"][:-1]:
                 try:
-                    mod.execute(c, Stats())
+                    import copy
+
+                    mod.execute(copy.deepcopy(c), Stats())
                 except HarnessError:
                     raise
                 except Exception:
                     pass
             return _safe_execute(mod, case["sequence"][-1], stats)
-        return mod.execute(case, stats)
+        import copy
+
+        # the case document is the replay: whatever the code under test does to objects it is handed, the document
+        # stays as generated
+        return mod.execute(copy.deepcopy(case), stats)
     except HarnessError:
         raise
     except (KeyboardInterrupt, SystemExit):
